@@ -219,6 +219,19 @@ pub fn expected_set_bit(v: &BigUint, i: usize, to: bool, r: &BigUint) -> Vec<Big
     }
 }
 
+/// input length 0..=70 from one byte: the 71 byte values ceil(l*256/71) keep meaning "length l" (the enumerated
+/// sub-spaces use them); every other byte value maps to a boundary length, mostly the full width 64
+pub fn len_from_byte(b: u8) -> usize {
+    let l = (b as usize * 71) >> 8;
+    if ((l * 256).div_ceil(71)) as u8 == b {
+        return l;
+    }
+    [64usize, 64, 64, 32, 64, 33, 63, 65, 64, 1, 64, 31][b as usize % 12]
+}
+pub fn conv_len(s: &mut Src) -> usize {
+    len_from_byte(s.u8())
+}
+
 fn lenclass(info: &mut Info, len: usize) {
     info.class(format!("len:{}", len));
 }
@@ -236,7 +249,7 @@ pub fn check(g: &[u8], ctx: &Ctx) -> Result<Info, Failure> {
             info.class("op:from_slice");
             let use_q = s.bool();
             let m = if use_q { Md::Q } else { Md::R };
-            let len = s.choose(71);
+            let len = conv_len(&mut s);
             let (b, bc) = conv_bytes(&mut s, len, m);
             lenclass(&mut info, len);
             info.class(format!("bytes:{}", bc));
@@ -298,7 +311,7 @@ pub fn check(g: &[u8], ctx: &Ctx) -> Result<Info, Failure> {
         }
         2 => {
             info.class("op:from_hash");
-            let len = s.choose(71);
+            let len = conv_len(&mut s);
             let (b, bc) = conv_bytes(&mut s, len, Md::R);
             lenclass(&mut info, len);
             info.class(format!("bytes:{}", bc));
@@ -357,7 +370,7 @@ pub fn check(g: &[u8], ctx: &Ctx) -> Result<Info, Failure> {
         4 => {
             info.class("op:to_big_endian");
             let v = felt(&mut s, Md::Q).v;
-            let len = s.choose(71);
+            let len = conv_len(&mut s);
             lenclass(&mut info, len);
             let fill = s.u8();
             info.nontrivial = true;
